@@ -42,8 +42,9 @@ CLAIMED = {
                 "the first `varlink` entry of LISTEN_FDNAMES), and an activated Listener is only ever built from such a descriptor; on the client side varlink_exec spawns `sh -c` with "
                 "VARLINK_ADDRESS=unix:<socket path> (the address it returns to the caller), LISTEN_FDS=1 and LISTEN_FDNAMES=varlink in the command's environment and a script that makes "
                 "the shell export its own pid as LISTEN_PID before `exec`; its pre_exec closure does not touch std::env and, whenever it returns Ok, has made descriptor 3 the "
-                "listening socket without the close-on-exec flag (dup2 onto 3, or clearing the flag when the socket already is 3). NOT claimed: that sh, exec and the service behave, "
-                "bridge stdio (varlink_bridge), and that all transports yield the same reply sequence (no function-level contract).",
+                "listening socket without the close-on-exec flag (dup2 onto 3, or clearing the flag when the socket already is 3); varlink_bridge gives the bridge command a stdin and a stdout that "
+                "own two different descriptors of the socket pair. NOT claimed: that sh, exec and the service behave, and that all transports yield the same reply sequence (no "
+                "function-level contract).",
         "note": NOTE_COMMON + "str::strip_prefix/starts_with, split(';'), split(':').enumerate(), parse::<usize>, env::var, process::id and socket bind/connect are stand-ins with assumed contracts; "
                 "`unsafe` from_raw_fd blocks are opaque; `#[cfg(windows)]` code is dropped; std::process::Command is a by-value builder stand-in recording arguments and environment whose "
                 "spawn() precondition is the obligation; dup2 / fcntl / is-close-on-exec are 'has happened' facts about the child's descriptor 3; env::set_var is given `requires false` "
